@@ -68,4 +68,124 @@ theorem C12p_block_symm (T : Model ℝ) (x a : Vec ℝ) (Hx : Mat ℝ) (hs : ∀
   refine Finset.sum_congr rfl (fun l _ => Finset.sum_congr rfl (fun k _ => ?_))
   rw [C12p_hessU_symm T x a Hx hs k l]; ring
 
+/-! ### the paraboloid in standard normal space -/
+
+/-- standard normal space: unit normal marginals, identity factor -/
+def Standard (T : Model ℝ) : Prop :=
+  AllNormal T (fun _ => 0) (fun _ => 1) ∧ ∀ i j, i < T.dim → j < T.dim → T.L i j = if i = j then 1 else 0
+
+theorem sum_ite_mul (n : Nat) (f : Nat → ℝ) (i : Nat) (hi : i < n) :
+    ∑ k ∈ range n, (if k = i then 1 else 0) * f k = f i := by
+  rw [Finset.sum_eq_single i]
+  · simp
+  · intro b _ hb; simp [hb]
+  · intro h; exact absurd (Finset.mem_range.mpr hi) h
+
+/-- in standard normal space the U-space Hessian is the Hessian of `g` -/
+theorem hessU_standard (T : Model ℝ) (hT : Standard T) (x a : Vec ℝ) (Hx : Mat ℝ) (i j : Nat) (hi : i < T.dim) (hj : j < T.dim) :
+    hessU T x a Hx i j = Hx i j := by
+  rw [hessU_real]
+  have hJ : ∀ k l, k < T.dim → l < T.dim → jInv T x k l = if k = l then 1 else 0 := by
+    intro k l hk hl
+    unfold jInv
+    rw [hT.1 k hk, hT.2 k l hk hl]
+    simp [Marg.dxdz]
+  have h2 : ∑ k ∈ range T.dim, T.L k i * (a k * Marg.d2xdz2 (T.marg k) (x k)) * T.L k j = 0 := by
+    refine Finset.sum_eq_zero (fun k hk => ?_)
+    rw [hT.1 k (Finset.mem_range.mp hk)]
+    simp [Marg.d2xdz2]
+  rw [h2, add_zero]
+  have h1 : ∀ k ∈ range T.dim, ∑ l ∈ range T.dim, jInv T x k i * Hx k l * jInv T x l j
+      = (if k = i then 1 else 0) * Hx k j := by
+    intro k hk
+    have hk' := Finset.mem_range.mp hk
+    have : ∀ l ∈ range T.dim, jInv T x k i * Hx k l * jInv T x l j
+        = (if l = j then 1 else 0) * ((if k = i then 1 else 0) * Hx k l) := by
+      intro l hl
+      rw [hJ k i hk' hi, hJ l j (Finset.mem_range.mp hl) hj]; ring
+    rw [Finset.sum_congr rfl this, sum_ite_mul T.dim (fun l => (if k = i then 1 else 0) * Hx k l) j hj]
+  rw [Finset.sum_congr rfl h1, sum_ite_mul T.dim (fun k => Hx k j) i hi]
+
+/-- **paraboloid clause on the model.**  Standard normal space; `e` a unit vector, `v 0 … v (n-2)` unit vectors that
+together with `e` form an orthonormal basis (completeness: `Σ_j v_j v_jᵀ + e eᵀ = 1`); the Hessian of the paraboloid
+`β − ⟨e,u⟩ + ½ Σ_j κ_j ⟨v_j,u⟩²` is `Σ_j κ_j v_j v_jᵀ` and its gradient norm at the design point is `1`.  Then for ANY rows
+`r_i`, `r_l` that are orthonormal and orthogonal to `e` (the rows the Gram–Schmidt step of the model produces,
+`C20m_orthonormal`), the entry of the curvature matrix is `Σ_j R_ij κ_j R_lj` with `R_ij = ⟨r_i, v_j⟩`, and `R Rᵀ = 1`: the
+curvature matrix is `R diag(κ) Rᵀ` for an orthogonal `R`, so its eigenvalues are the `κ_j` (`C12_similar_charpoly`) — whatever
+the rotation and the order of the axes. -/
+theorem C12p_paraboloid_entry (T : Model ℝ) (hT : Standard T) (x a : Vec ℝ) (e : Vec ℝ) (v : Nat → Vec ℝ) (κ : Nat → ℝ)
+    (hcomplete : ∀ k m, k < T.dim → m < T.dim →
+      (∑ j ∈ range (T.dim - 1), v j k * v j m) + e k * e m = if k = m then 1 else 0)
+    (ri rl : Vec ℝ) (hre_i : dot T.dim ri e = 0) (hre_l : dot T.dim rl e = 0) :
+    let Hx : Mat ℝ := fun k m => ∑ j ∈ range (T.dim - 1), κ j * v j k * v j m
+    (∑ k ∈ range T.dim, ∑ m ∈ range T.dim, ri k * (hessU T x a Hx k m / 1) * rl m
+        = ∑ j ∈ range (T.dim - 1), dot T.dim ri (v j) * κ j * dot T.dim rl (v j)) ∧
+    (∑ j ∈ range (T.dim - 1), dot T.dim ri (v j) * dot T.dim rl (v j) = dot T.dim ri rl) := by
+  intro Hx
+  constructor
+  · have : ∀ k ∈ range T.dim, ∀ m ∈ range T.dim, ri k * (hessU T x a Hx k m / 1) * rl m
+        = ∑ j ∈ range (T.dim - 1), (ri k * v j k) * κ j * (rl m * v j m) := by
+      intro k hk m hm
+      rw [hessU_standard T hT x a Hx k m (Finset.mem_range.mp hk) (Finset.mem_range.mp hm), div_one]
+      show ri k * (∑ j ∈ range (T.dim - 1), κ j * v j k * v j m) * rl m = _
+      rw [Finset.mul_sum, Finset.sum_mul]
+      exact Finset.sum_congr rfl (fun j _ => by ring)
+    rw [Finset.sum_congr rfl (fun k hk => Finset.sum_congr rfl (fun m hm => this k hk m hm))]
+    -- exchange the sums
+    calc ∑ k ∈ range T.dim, ∑ m ∈ range T.dim, ∑ j ∈ range (T.dim - 1), (ri k * v j k) * κ j * (rl m * v j m)
+        = ∑ k ∈ range T.dim, ∑ j ∈ range (T.dim - 1), ∑ m ∈ range T.dim, (ri k * v j k) * κ j * (rl m * v j m) :=
+          Finset.sum_congr rfl (fun k _ => Finset.sum_comm)
+      _ = ∑ j ∈ range (T.dim - 1), ∑ k ∈ range T.dim, ∑ m ∈ range T.dim, (ri k * v j k) * κ j * (rl m * v j m) := Finset.sum_comm
+      _ = ∑ j ∈ range (T.dim - 1), dot T.dim ri (v j) * κ j * dot T.dim rl (v j) := by
+          refine Finset.sum_congr rfl (fun j _ => ?_)
+          rw [dot_real, dot_real, Finset.sum_mul, Finset.sum_mul]
+          refine Finset.sum_congr rfl (fun k _ => ?_)
+          rw [Finset.mul_sum]
+  · -- Parseval in the complement of e
+    have h1 : ∑ j ∈ range (T.dim - 1), dot T.dim ri (v j) * dot T.dim rl (v j)
+        = ∑ k ∈ range T.dim, ∑ m ∈ range T.dim, ri k * rl m * ∑ j ∈ range (T.dim - 1), v j k * v j m := by
+      calc ∑ j ∈ range (T.dim - 1), dot T.dim ri (v j) * dot T.dim rl (v j)
+          = ∑ j ∈ range (T.dim - 1), ∑ k ∈ range T.dim, ∑ m ∈ range T.dim, (ri k * v j k) * (rl m * v j m) := by
+            refine Finset.sum_congr rfl (fun j _ => ?_)
+            rw [dot_real, dot_real, Finset.sum_mul_sum]
+        _ = ∑ k ∈ range T.dim, ∑ j ∈ range (T.dim - 1), ∑ m ∈ range T.dim, (ri k * v j k) * (rl m * v j m) := Finset.sum_comm
+        _ = ∑ k ∈ range T.dim, ∑ m ∈ range T.dim, ∑ j ∈ range (T.dim - 1), (ri k * v j k) * (rl m * v j m) :=
+            Finset.sum_congr rfl (fun k _ => Finset.sum_comm)
+        _ = ∑ k ∈ range T.dim, ∑ m ∈ range T.dim, ri k * rl m * ∑ j ∈ range (T.dim - 1), v j k * v j m := by
+            refine Finset.sum_congr rfl (fun k _ => Finset.sum_congr rfl (fun m _ => ?_))
+            rw [Finset.mul_sum]
+            exact Finset.sum_congr rfl (fun j _ => by ring)
+    rw [h1]
+    have h2 : ∀ k ∈ range T.dim, ∀ m ∈ range T.dim, ri k * rl m * ∑ j ∈ range (T.dim - 1), v j k * v j m
+        = ri k * rl m * (if k = m then 1 else 0) - (ri k * e k) * (rl m * e m) := by
+      intro k hk m hm
+      have := hcomplete k m (Finset.mem_range.mp hk) (Finset.mem_range.mp hm)
+      rw [← this]; ring
+    rw [Finset.sum_congr rfl (fun k hk => Finset.sum_congr rfl (fun m hm => h2 k hk m hm))]
+    simp only [Finset.sum_sub_distrib]
+    have h3 : ∑ k ∈ range T.dim, ∑ m ∈ range T.dim, (ri k * e k) * (rl m * e m) = dot T.dim ri e * dot T.dim rl e := by
+      rw [dot_real, dot_real, Finset.sum_mul_sum]
+    have h4 : ∑ k ∈ range T.dim, ∑ m ∈ range T.dim, ri k * rl m * (if k = m then 1 else 0) = dot T.dim ri rl := by
+      rw [dot_real]
+      refine Finset.sum_congr rfl (fun k hk => ?_)
+      rw [Finset.sum_eq_single k]
+      · simp
+      · intro b _ hb; simp [Ne.symm hb]
+      · intro h; exact absurd hk h
+    rw [h3, h4, hre_i, hre_l]; ring
+
+/-- non-vacuity: the two-dimensional standard space with `e = (0, 1)`, `v₀ = (1, 0)` meets the hypotheses -/
+example : Standard { dim := 2, marg := fun _ => .normal 0 1, L := fun i j => if i = j then 1 else 0,
+                     Linv := fun i j => if i = j then 1 else 0 } ∧
+    (∀ k m, k < 2 → m < 2 →
+      (∑ j ∈ range (2 - 1), (fun (_ : Nat) (q : Nat) => if q = 0 then (1 : ℝ) else 0) j k *
+          (fun (_ : Nat) (q : Nat) => if q = 0 then (1 : ℝ) else 0) j m)
+        + (fun q : Nat => if q = 1 then (1 : ℝ) else 0) k * (fun q : Nat => if q = 1 then (1 : ℝ) else 0) m
+        = if k = m then 1 else 0) := by
+  refine ⟨⟨fun _ _ => rfl, fun _ _ _ _ => rfl⟩, ?_⟩
+  intro k m hk hm
+  have hk' : k = 0 ∨ k = 1 := by omega
+  have hm' : m = 0 ∨ m = 1 := by omega
+  rcases hk' with rfl | rfl <;> rcases hm' with rfl | rfl <;> simp
+
 end FF.SormPipe
